@@ -61,6 +61,22 @@ fn run_history(seed: u64, index: u64, mode_c12: bool, steps: u64) -> (drive::Obs
     (obs, viol, stats, cfg_desc)
 }
 
+/// the nodes of a finished history are stopped: drop their databases
+fn clean_scratch(scratch: &std::path::Path) {
+    for e in fs::read_dir(scratch).into_iter().flatten().flatten() {
+        let name = e.file_name().to_string_lossy().to_string();
+        if name.starts_with("ckb-tmp-") {
+            let _ = fs::remove_dir_all(e.path());
+        } else if name.starts_with(".tmp") {
+            for d in fs::read_dir(e.path()).into_iter().flatten().flatten() {
+                if d.file_name().to_string_lossy().starts_with("db_") {
+                    let _ = fs::remove_dir_all(d.path());
+                }
+            }
+        }
+    }
+}
+
 fn main() {
     let prop = std::env::args().nth(1).expect("usage: hx-poolchain <C12|C13>");
     let mode_c12 = match prop.as_str() {
@@ -77,6 +93,9 @@ fn main() {
             let _ = fs::remove_file(e.path());
         }
     }
+    // every temporary database / header-map directory of the nodes goes under the scratch directory
+    let scratch = scratch_dir(&prop);
+    std::env::set_var("TMPDIR", &scratch);
     let _log_guard = std::env::var("HX_LOG").ok().map(|f| ckb_logger_service::init_for_test(&f).expect("logger"));
     ckb_logger::debug!("hx-poolchain start");
     let (n_hist, steps) = match (thorough, std::env::var("HX_HIST").ok().and_then(|s| s.parse::<u64>().ok())) {
@@ -100,7 +119,8 @@ fn main() {
         if viol.is_empty() {
             println!("  no violation this time (the schedule of the pool's tasks is not controlled by the seed)");
         }
-        std::process::exit(if viol.is_empty() { 0 } else { 1 });
+        let _ = fs::remove_dir_all(&scratch);
+            std::process::exit(if viol.is_empty() { 0 } else { 1 });
     }
     let mut viol: Vec<Value> = vec![];
     let mut stats: BTreeMap<String, u64> = BTreeMap::new();
@@ -148,6 +168,7 @@ fn main() {
                 viol.push(json!({"what": "panic while driving the node", "detail": msg, "history_id": format!("seed={sd} index={i}")}));
             }
         }
+        clean_scratch(&scratch);
         if viol.iter().filter(|v| v.get("signature").is_none()).count() > 5 {
             break;
         }
@@ -190,7 +211,7 @@ fn main() {
         }
         *stats.entry("coq_template_cases".into()).or_default() += std::cmp::min(c13_cases.len(), per * 16) as u64;
     }
-    let _ = fs::remove_dir_all(out_dir("poolchain-net"));
+    let _ = fs::remove_dir_all(&scratch);
     let rule = if mode_c12 {
         "histories on ONE real node with the tx-pool service started and a block assembler configured (always-success lock): submissions through TxPoolController::submit_local_tx (chains and diamonds of pooled txs, cell deps, header deps, conflicts / RBF, dead inputs, fees around min_fee_rate, output data up to the block size), blocks mined from the node's own template, outside blocks built by a second node (extensions, competing branches of depth 1..6 that take over, siblings; they commit pooled txs, secret conflicting txs and re-commit txs of the abandoned branch; proposals expire at w_far), clock steps around the expiry edge, two-step submissions (pre_check / pool change / submit_entry). After every change of the main chain the harness waits until the pool's snapshot is the chain's tip and evaluates the C12 predicate on the pool dump and the node's snapshot. distinct = histories with >= 3 evaluations"
     } else {
